@@ -14,7 +14,7 @@ P-TRACE  the recorded cleaner runs shared with C06/C07 (harness/cleaner_traces.p
 """
 import copy
 import json
-import multiprocessing
+import signal
 
 from harness import cleaner_traces as CT
 from harness import tlc
@@ -56,6 +56,12 @@ def replay_transition(tr):
         objs[i].children = [objs[c] for c in pre["kids"][i - 1]]
         objs[i].parent = objs[pre["parent"][i - 1]] if pre["parent"][i - 1] else None
     op, a = tr["op"], tr["args"]
+
+    def on_alarm(signum, frame):
+        raise CT.Budget("no return")
+
+    old = signal.signal(signal.SIGALRM, on_alarm)
+    signal.setitimer(signal.ITIMER_REAL, 60)
     try:
         if op == "new":
             objs[a[0]] = advtree.Div()
@@ -77,8 +83,11 @@ def replay_transition(tr):
                 objs[free[k]] = o
         else:
             return "unknown op " + op
-    except Exception as e:                                           # noqa: BLE001
-        return "the model enables %s%r but the real call raised %s: %s" % (op, a, type(e).__name__, e)
+    except (Exception, CT.Budget) as e:                              # noqa: BLE001
+        return "the model enables %s%r but the real call raised %s: %s" % (op, a, type(e).__name__, str(e)[:200])
+    finally:
+        signal.setitimer(signal.ITIMER_REAL, 0)
+        signal.signal(signal.SIGALRM, old)
     ident = {id(o): i for i, o in objs.items()}
     if set(objs) != set(post["alloc"]):
         return "allocated %r, model %r" % (sorted(objs), post["alloc"])
@@ -126,16 +135,11 @@ def doctree(ctx):
     if not un.ok:
         ctx.machinery("DocTree unguarded run failed: %s %s" % (un.kind, un.name))
     transitions += un.emitted
-    pool = multiprocessing.get_context("fork").Pool(ctx.ncpu)
-    try:
-        n = 0
-        bad = []
-        for cnt, b in pool.imap_unordered(_replay_worker, [c for c in chunks(transitions, ctx.ncpu * 4) if c]):
-            n += cnt
-            bad.extend(b)
-    finally:
-        pool.close()
-        pool.join()
+    n = 0
+    bad = []
+    for cnt, b in CT.run_pool(ctx, _replay_worker, [c for c in chunks(transitions, ctx.ncpu * 4) if c]):
+        n += cnt
+        bad.extend(b)
     seen = set()
     for tr, why in bad:
         k = "tree-api %s model/real heap differ" % tr["op"]
@@ -164,7 +168,7 @@ def corruptions(traces):
     out = []
 
     def variant(expect, f):
-        v = copy.deepcopy({k: t[k] for k in ("id", "lossless", "snaps", "raw", "lang")})
+        v = copy.deepcopy({k: t[k] for k in ("id", "lossless", "truncated", "order", "snaps", "raw", "lang")})
         v["id"] = 900000 + len(out)
         f(v)
         out.append((expect, v))
@@ -253,7 +257,15 @@ def report(ctx, val):
 
 def run(ctx):
     dt = doctree(ctx)
-    inputs, gen_stats = CT.generate(ctx, scale=0.85)
+    if ctx.violations:
+        # the tree API itself does not behave as DocTree.tla says: every pass is built on it, so
+        # the recorded runs would only repeat that (and broken parent links can make passes run away)
+        ctx.note("tree API differs from DocTree.tla: cleaner traces not recorded in this run")
+        ctx.set_cover(evaluations=dt["replayed"], distinct_nontrivial=dt["replayed"], states=dt["states"], transitions=dt["transitions"],
+                      traces_validated_against_impl=dt["replayed"], rule="DocTree.tla transitions replayed on real AdvancedNode objects")
+        ctx.sample({"note": "see replays/C05"})
+        return
+    inputs, gen_stats = CT.generate(ctx, scale=0.6 if ctx.tier == "quick" else 0.85)
     traces = CT.record_all(ctx, inputs)
     val = CT.validate(ctx, traces, CLAUSES)
     report(ctx, val)
